@@ -73,3 +73,112 @@ Example C16_nonvacuous :
   forallb scalar_b cs = true /\ uc_slen (chars cs) = 5%nat /\ uc_chop (chars cs) = [0; 1; 3; 6; 10; 12]%nat /\
   uc_chr (chars cs) 3 = Some 6%nat /\ uc_off (chars cs) 6 = 3%nat.
 Proof. vm_compute. repeat split; reflexivity. Qed.
+
+(* ---------------------------------------------------------------------------------------------
+   THE MODEL IS THE C TEXT.  GenCFuncs.v is regenerated from /repo's uc.c on every run by
+   tools/c2clite.py (clang's AST printed as a term of the deep embedding CLite.v, whose checked
+   semantics is fixed there).  The theorems below say: for EVERY memory holding a C string at any
+   block, every offset into it, every call depth and every loop fuel above the stated bound,
+   running the translated function returns exactly the value of the hand-written model UcDefs.v
+   (which all the theorems above and the C07/C08/C11-C14/C17/C18 developments speak about) and
+   leaves memory unchanged; in particular no load leaves the string and its terminator, no signed
+   operation overflows and neither fuel runs out (those are distinct error results of CLite). *)
+From NV Require Import CLite CLiteProps GenCFuncs TrUc TrUcTab.
+Local Open Scope Z_scope.
+
+Theorem C16_tr_uc_len : forall m b s o d fuel,
+  str_at m b s -> bytes_lt256 s -> (o <= length s)%nat ->
+  callf cprog fuel (S d) F_uc_len [VPtr b (Z.of_nat o)] m = Ok (VInt (Z.of_nat (uc_len_b (nthb s o))), m).
+Proof. exact tr_uc_len. Qed.
+Print Assumptions C16_tr_uc_len.
+
+(* uc_code reads as many bytes as the lead byte announces: in bounds iff they lie inside the string
+   or on its terminator (a truncated sequence right before the terminator is the excluded case) *)
+Theorem C16_tr_uc_code : forall m b s o d fuel,
+  str_at m b s -> bytes_lt256 s -> (o + uc_len_b (nthb s o) - 1 <= length s)%nat -> (o <= length s)%nat ->
+  callf cprog fuel (S d) F_uc_code [VPtr b (Z.of_nat o)] m = Ok (VInt (Z.of_N (uc_code (skipn o s))), m).
+Proof. exact tr_uc_code. Qed.
+Print Assumptions C16_tr_uc_code.
+
+Theorem C16_tr_uc_end : forall m b s o d fuel,
+  str_at m b s -> bytes_lt256 s -> (o <= length s)%nat -> (length s < fuel)%nat ->
+  callf cprog fuel (S d) F_uc_end [VPtr b (Z.of_nat o)] m = Ok (VPtr b (Z.of_nat (o + uc_end (skipn o s))), m).
+Proof. exact tr_uc_end. Qed.
+Print Assumptions C16_tr_uc_end.
+
+Theorem C16_tr_uc_next : forall m b s o d fuel,
+  str_at m b s -> bytes_lt256 s -> (o <= length s)%nat -> (length s < fuel)%nat ->
+  callf cprog fuel (S (S d)) F_uc_next [VPtr b (Z.of_nat o)] m = Ok (VPtr b (Z.of_nat (o + uc_next (skipn o s))), m).
+Proof. exact tr_uc_next. Qed.
+Print Assumptions C16_tr_uc_next.
+
+(* beg = offset ob, s = offset o of the same string; pre_of = the bytes between them, nearest first *)
+Theorem C16_tr_uc_beg : forall m b s ob o d fuel,
+  str_at m b s -> bytes_lt256 s -> (ob <= o <= length s)%nat -> (length s < fuel)%nat ->
+  callf cprog fuel (S d) F_uc_beg [VPtr b (Z.of_nat ob); VPtr b (Z.of_nat o)] m
+  = Ok (VPtr b (Z.of_nat (o - uc_beg (pre_of s ob o) (nthb s o))), m).
+Proof. exact tr_uc_beg. Qed.
+Print Assumptions C16_tr_uc_beg.
+
+Theorem C16_tr_uc_prev : forall m b s ob o d fuel,
+  str_at m b s -> bytes_lt256 s -> (ob <= o <= length s)%nat -> (length s < fuel)%nat ->
+  callf cprog fuel (S (S d)) F_uc_prev [VPtr b (Z.of_nat ob); VPtr b (Z.of_nat o)] m
+  = Ok (VPtr b (Z.of_nat (o - uc_prev (pre_of s ob o))), m).
+Proof. exact tr_uc_prev. Qed.
+Print Assumptions C16_tr_uc_prev.
+
+(* the counting loops: strings shorter than 2^31 (the counter is an int) *)
+Theorem C16_tr_uc_slen : forall m b s o d fuel,
+  str_at m b s -> nonul s -> (o <= length s)%nat -> (length s < fuel)%nat -> Z.of_nat (length s) <= 2147483647 ->
+  callf cprog fuel (S (S d)) F_uc_slen [VPtr b (Z.of_nat o)] m = Ok (VInt (Z.of_nat (uc_slen (skipn o s))), m).
+Proof. exact tr_uc_slen. Qed.
+Print Assumptions C16_tr_uc_slen.
+
+Theorem C16_tr_uc_off : forall m b s o off d fuel,
+  str_at m b s -> nonul s -> (o <= length s)%nat -> (length s < fuel)%nat ->
+  Z.of_nat (length s) <= 2147483647 -> Z.of_nat off <= 2147483647 ->
+  callf cprog fuel (S (S (S d))) F_uc_off [VPtr b (Z.of_nat o); VInt (Z.of_nat off)] m
+  = Ok (VInt (Z.of_nat (uc_off (skipn o s) off)), m).
+Proof. exact tr_uc_off. Qed.
+Print Assumptions C16_tr_uc_off.
+
+(* uc_chr for any int offset (negative too): a pointer into the string, or the static "" *)
+Theorem C16_tr_uc_chr : forall m b s o off d fuel,
+  str_at m b s -> nonul s -> (o <= length s)%nat -> (length s < fuel)%nat -> Z.of_nat (length s) <= 2147483647 ->
+  callf cprog fuel (S (S (S d))) F_uc_chr [VPtr b (Z.of_nat o); VInt off] m
+  = Ok (chr_val b (option_map (fun q => o + q)%nat (uc_chr (skipn o s) off)), m).
+Proof. exact tr_uc_chr. Qed.
+Print Assumptions C16_tr_uc_chr.
+
+(* the character classes (isspace/isalpha/isdigit/isprint of <ctype.h> enter as CLite builtins, C locale) *)
+Theorem C16_tr_uc_kind : forall m b s o d fuel, str_at m b s -> bytes_lt256 s -> (o <= length s)%nat ->
+  callf cprog fuel (S (S d)) F_uc_kind [VPtr b (Z.of_nat o)] m = Ok (VInt (Z.of_N (uc_kind (skipn o s))), m).
+Proof. exact tr_uc_kind. Qed.
+Print Assumptions C16_tr_uc_kind.
+Theorem C16_tr_uc_classes : forall m b s o d fuel, str_at m b s -> bytes_lt256 s -> (o <= length s)%nat ->
+  callf cprog fuel (S d) F_uc_isspace [VPtr b (Z.of_nat o)] m = Ok (VInt (b2z (uc_isspace (skipn o s))), m) /\
+  callf cprog fuel (S d) F_uc_isprint [VPtr b (Z.of_nat o)] m = Ok (VInt (b2z (uc_isprint (skipn o s))), m) /\
+  callf cprog fuel (S d) F_uc_isalpha [VPtr b (Z.of_nat o)] m = Ok (VInt (b2z (uc_isalpha (skipn o s))), m) /\
+  callf cprog fuel (S d) F_uc_isdigit [VPtr b (Z.of_nat o)] m = Ok (VInt (b2z (uc_isdigit (skipn o s))), m).
+Proof.
+  exact (fun m b s o d fuel Hs H Ho => conj (tr_uc_isspace m b s o d fuel Hs H Ho) (conj (tr_uc_isprint m b s o d fuel Hs H Ho)
+          (conj (tr_uc_isalpha m b s o d fuel Hs H Ho) (tr_uc_isdigit m b s o d fuel Hs H Ho)))).
+Qed.
+Print Assumptions C16_tr_uc_classes.
+
+(* non-vacuity and a run of the interpreter itself: "aé€" at block 0, every function on it *)
+Example C16_tr_nonvacuous :
+  let s := [97; 195; 169; 226; 130; 172]%N in
+  let m := [cstr_block (zb s)] in
+  str_at m 0 s /\ nonul s /\
+  callf cprog 100 5 F_uc_slen [VPtr 0 0] m = Ok (VInt 3, m) /\
+  callf cprog 100 5 F_uc_code [VPtr 0 3] m = Ok (VInt 8364, m) /\
+  callf cprog 100 5 F_uc_chr [VPtr 0 0; VInt 2] m = Ok (VPtr 0 3, m) /\
+  callf cprog 100 5 F_uc_off [VPtr 0 0; VInt 3] m = Ok (VInt 2, m) /\
+  callf cprog 100 5 F_uc_prev [VPtr 0 0; VPtr 0 6] m = Ok (VPtr 0 3, m) /\
+  (* a truncated sequence right before the terminator: the C text reads past the string *)
+  callf cprog 100 5 F_uc_code [VPtr 0 0] [cstr_block [240]] = Err EOob.
+Proof.
+  cbv zeta. split; [reflexivity|]. split; [repeat constructor; cbv; intuition discriminate|].
+  vm_compute. repeat split; reflexivity.
+Qed.
